@@ -732,3 +732,29 @@ Proof.
   - destruct Hroot as (_ & _ & ->). unfold real_path. reflexivity.
   - apply (real_path_inside root rs); auto.
 Qed.
+
+(* ancestors of the root (every proper prefix of its spelling) are not inside it, so no command
+   sequence - removing, renaming or recreating the root included - changes them *)
+Lemma is_prefix_length p : forall s, is_prefix p s = true -> (length p <= length s)%nat.
+Proof.
+  induction p as [|x p IH]; intros s H; cbn [length]; [lia|].
+  destruct s as [|y s]; cbn [is_prefix] in H; [discriminate|].
+  apply andb_true_iff in H as [_ H]. apply IH in H. cbn [length]. lia.
+Qed.
+
+Lemma proper_prefix_not_inside root k : is_prefix k root = true -> k <> root -> ~ inside root k.
+Proof.
+  intros Hp Hn Hin. unfold inside, inside_b in Hin. apply orb_true_iff in Hin as [E|E].
+  - apply eqb_bytes_true in E. contradiction.
+  - apply is_prefix_length in E. apply is_prefix_length in Hp.
+    rewrite app_length in E. cbn [length] in E. lia.
+Qed.
+
+Lemma ancestors_untouched root rs fs : clean_root root rs -> forall cs k,
+  is_prefix k root = true -> k <> root ->
+  lookup (s_fs (fst (fst (run (init_sess fs root) cs)))) k = lookup fs k.
+Proof.
+  intros Hroot cs k Hp Hn. pose proof (run_from_login root rs fs Hroot cs) as R.
+  destruct (run (init_sess fs root) cs) as [[s' xs] f]. destruct R as (R & _).
+  cbn [fst]. apply R. apply proper_prefix_not_inside; auto.
+Qed.
